@@ -155,8 +155,26 @@ class FuncInfo:
                     self.sites.append(RSite(f, n, "IndexError", "pop"))
                 elif isinstance(n.func, ast.Attribute) and n.func.attr in ("index", "remove") and s is not None and not s.callees:
                     self.sites.append(RSite(f, n, "ValueError", "index"))
-                elif isinstance(n.func, ast.Attribute) and n.func.attr == "format" and isinstance(n.func.value, ast.Constant):
-                    pass
+                elif isinstance(n.func, ast.Attribute) and n.func.attr == "format" and s is not None and not s.callees:
+                    recv = n.func.value
+                    if isinstance(recv, ast.Constant) and isinstance(recv.value, str):
+                        # constant template: placeholders must be served by the arguments
+                        import string
+                        try:
+                            flds = [x[1] for x in string.Formatter().parse(recv.value) if x[1] is not None]
+                            auto = sum(1 for x in flds if x == "")
+                            named = [x for x in flds if x and not x.isdigit()]
+                            kws = {k.arg for k in n.keywords}
+                            star = any(isinstance(a, ast.Starred) for a in n.args) or any(k.arg is None for k in n.keywords)
+                            if not star and (auto > len(n.args) or any(x.split(".")[0].split("[")[0] not in kws for x in named)):
+                                self.sites.append(RSite(f, n, "IndexError", "format"))
+                        except ValueError:
+                            self.sites.append(RSite(f, n, "ValueError", "format"))
+                    else:
+                        t = self.type_of(recv)
+                        if not t or any(a[0] in ("str", "any") for a in t):
+                            # template built at run time (e.g. from the input): '{' / '}' in it make format() raise
+                            self.sites.append(RSite(f, n, "ValueError", "format"))
             elif isinstance(n, ast.BinOp) and isinstance(n.op, (ast.Div, ast.FloorDiv, ast.Mod)):
                 lt = self.type_of(n.left)
                 if any(a[0] == "str" for a in lt) and isinstance(n.op, ast.Mod):
